@@ -26,7 +26,7 @@ theorem parse_decl_roundtrip (t : CType) (h : WF t = true) : parseType (decl t) 
   exact roundtrip_frames hn c v fs hok
 
 /-- non-vacuity: `const unsigned long long (* const *[9])[3][4]`-like type is well formed -/
-example : WF (.array (.pointer (.pointer (.array (.value "unsigned long long" true true) [3, 4])
+example : WF (.array (.pointer (.pointer (.array (.value "unsigned long long".toList true true) [3, 4])
     false true false true) false false false false) [9]) = true := by decide
 
 /-- The special-cased `void *(*)(void *)` value type round-trips as well. -/
@@ -46,7 +46,7 @@ theorem decl_parse_equiv (s : Str) (t : CType) (h : parseType s = some t) : pars
 /-- non-vacuity: a string with west const, nested parentheses and a multi-dimensional array parses -/
 example : parseType "int unsigned volatile long const long(**const(*const restrict*[9])[7])[3][4]".toList =
     some (.array (.pointer (.pointer (.array (.pointer (.pointer (.array
-      (.value "int unsigned long long" true true) [3, 4]) false false false false) false true false false) [7])
+      (.value "int unsigned long long".toList true true) [3, 4]) false false false false) false true false false) [7])
       false true false true) false false false false) [9]) := by decide
 
 /-- The printer is injective on well-formed types (consequence of the round trip). -/
